@@ -1062,7 +1062,8 @@ func c17QueuedPeers(r *Report) {
 				ret, ok := in.(*ssa.Return)
 				return ok && len(ret.Results) > 0 && isNilConst(ret.Results[len(ret.Results)-1])
 			}
-			testsDone := func(in ssa.Instruction) bool {
+			var testsDoneD func(in ssa.Instruction, d int) bool
+			testsDoneD = func(in ssa.Instruction, d int) bool {
 				switch x := in.(type) {
 				case *ssa.Select:
 					for _, s2 := range x.States {
@@ -1072,9 +1073,28 @@ func c17QueuedPeers(r *Report) {
 					}
 				case *ssa.UnOp:
 					return x.Op == token.ARROW && chanSourceOf(x.X).Field == doneF
+				case *ssa.Call:
+					// t.dead(): a function of the package that tests Done on every path
+					h := x.Call.StaticCallee()
+					if h == nil || x.Call.IsInvoke() || h.Blocks == nil || relPkg(h) != "tor" || d > 2 {
+						return false
+					}
+					tst := anyInstr(h, func(i2 ssa.Instruction) bool {
+						if !testsDoneD(i2, d+1) {
+							return false
+						}
+						for _, ret := range returnsOf(h) {
+							if !instrDominates(i2, ret) {
+								return false
+							}
+						}
+						return true
+					})
+					return tst != nil
 				}
 				return false
 			}
+			testsDone := func(in ssa.Instruction) bool { return testsDoneD(in, 0) }
 			miss, reached := pathsMissingAt(blk, 0, -1, isNilRet, nil, []edgeReq{{Name: "Done re-tested", Instr: testsDone}}, nil)
 			r.Check(reached > 0 && len(miss) == 0, "R4", "NewPeer/recheck-Done-after-queueing", sel.Pos(), "success is reported only after Done was tested again once the event is queued",
 				"NewPeer reports success as soon as its event is queued: if the loop has exited meanwhile (Done closed and the queue drained, or the send and Done both ready) nobody will ever start or close the peer and its connection stays open")
